@@ -129,4 +129,15 @@ Proof.
   assert (ax * (u * aA + eta) = u * (ax * aA) + ax * eta) as R2 by ring.
   lra.
 Qed.
+
+(* lower bound of the support: Pareto = scale * u^(-1/shape) with a factor >= 1 (whatever powf returns, as long as it is >= 1)
+   never falls below the scale - exactly, no ulp *)
+Theorem scale_fl_ge_scale (s g : float) :
+  is_finite s = true -> is_finite g = true -> Rabs (rnd (B2R s * B2R g)) < bpow radix2 emax ->
+  0 <= B2R s -> 1 <= B2R g -> B2R s <= B2R (scale_fl s g).
+Proof.
+  intros Fs Fg O Hs Hg. destruct (scale_fl_value s g Fs Fg O) as [E _]. rewrite E.
+  unfold AffineFl.rnd. apply round_ge_generic; try typeclasses eauto; [apply (generic_format_B2R prec emax s)|].
+  pose proof (Rmult_le_compat_l (B2R s) 1 (B2R g) Hs Hg). lra.
+Qed.
 End Fmt.
